@@ -43,7 +43,7 @@ FC2_ROT = {"face": {0: {"X": (None, (1, "Y", False))}, 1: {"Y": ((0, "X", False)
 
 OPS = [
     # (name, grid kind, description)
-    "diff-dicts", "interp-multi-dicts", "min-scalar", "max-mapping", "cumsum-dicts", "derivative", "integrate", "average", "cumint",
+    "diff-dicts", "interp-multi-dicts", "min-scalar", "max-mapping", "cumsum-dicts", "cumsum-metric-same-dims", "interp-metric-same-dims", "diff-without-padding", "min-without-padding", "derivative", "integrate", "average", "cumint",
     "get_metric", "interp_like", "apply_ufunc-dicts", "pad-direct", "vector-simple", "ctor-all-dicts", "set_metrics-list",
     "fc-diff-scalar", "fc-diff-vector", "fc-interp-vector", "fc-rot-diff-vector", "fc-2d-vector", "fc-pad-vector",
     "transform-linear-unnamed-target-data", "transform-conservative", "transform-linear-named",
@@ -299,6 +299,8 @@ def run_structure(s):
         u = T.a("u", w.array("U", ["t"] + face + [Y["center"], X["left"]], ds))
         v = T.a("v", w.array("V", ["t"] + face + [Y["left"], X["center"]], ds))
         zc = T.a("zdata", w.array("ZC", ["t", Z["center"], X["center"]], ds, with_coords=True))
+        d1 = T.a("data1d", w.array("D1", [X["center"]], ds)) if kind != "fc" else None
+        o1 = T.a("data_outer", w.array("O1", ["t", Y["center"], X["outer"]], ds, with_coords=True)) if kind != "fc" else None
         fillc = w.real("c")
 
         def call():
@@ -316,6 +318,16 @@ def run_structure(s):
             if op == "cumsum-dicts":
                 return g.cumsum(c, T.lst("axis", ["X", "Y"]), to=T.d("to", {"X": "outer", "Y": "left"}), boundary=T.d("boundary", {"X": "fill", "Y": "extend"}),
                                 fill_value=T.d("fill_value", {"X": fillc, "Y": 0.0}), metric_weighted=T.d("metric_weighted", {"X": ("X",), "Y": None}))
+            if op == "diff-without-padding":
+                # a shift that needs no padding: the function works on (a view of) the argument's own buffer
+                return g.diff(o1, "X", to="center")
+            if op == "min-without-padding":
+                return g.min(o1, "X", to="center", keep_coords=True)
+            if op == "cumsum-metric-same-dims":
+                # data whose dims are exactly the metric's dims (no broadcasting needed): an in-place product would write into the argument
+                return g.cumsum(d1, "X", to="left", boundary="fill", fill_value=0.0, metric_weighted=("X",))
+            if op == "interp-metric-same-dims":
+                return g.interp(d1, "X", to="left", boundary="extend", metric_weighted=("X",))
             if op == "derivative":
                 return g.derivative(c, "X", boundary=T.d("boundary", {"X": "extend"}))
             if op == "integrate":
@@ -480,7 +492,9 @@ def replay(ob):
             u = xr.DataArray(rng.random((2,) + fshape + (n, n)), dims=("t",) + face + ("y_c", "x_l"), name="U")
             v = xr.DataArray(rng.random((2,) + fshape + (n, n)), dims=("t",) + face + ("y_l", "x_c"), name="V")
             zc = xr.DataArray(rng.random((2, 3, n)), dims=("t", "z_c", "x_c"), name="ZC")
-            arrs = {"data": c, "u": u, "v": v, "zdata": zc}
+            d1 = xr.DataArray(rng.random(n), dims=("x_c",), name="D1")
+            o1 = xr.DataArray(rng.random((2, n, n + 1)), dims=("t", "y_c", "x_o"), name="O1")
+            arrs = {"data": c, "u": u, "v": v, "zdata": zc, "data1d": d1, "data_outer": o1}
             snaps = {k: a.copy(deep=True) for k, a in arrs.items()}
             names = {k: a.name for k, a in arrs.items()}
             td = None
@@ -502,6 +516,14 @@ def replay(ob):
                 if op == "cumsum-dicts":
                     return g.cumsum(c, D("axis", ["X", "Y"]), to=D("to", {"X": "outer", "Y": "left"}), boundary=D("boundary", {"X": "fill", "Y": "extend"}),
                                     fill_value=D("fill_value", {"X": 2.5, "Y": 0.0}), metric_weighted=D("metric_weighted", {"X": ("X",), "Y": None}))
+                if op == "diff-without-padding":
+                    return g.diff(o1, "X", to="center")
+                if op == "min-without-padding":
+                    return g.min(o1, "X", to="center", keep_coords=True)
+                if op == "cumsum-metric-same-dims":
+                    return g.cumsum(d1, "X", to="left", boundary="fill", fill_value=0.0, metric_weighted=("X",))
+                if op == "interp-metric-same-dims":
+                    return g.interp(d1, "X", to="left", boundary="extend", metric_weighted=("X",))
                 if op == "derivative":
                     return g.derivative(c, "X", boundary=D("boundary", {"X": "extend"}))
                 if op == "integrate":
